@@ -13,10 +13,13 @@
    Clauses of the property proved elsewhere: "its facts are trusted only by scopes naming its
    key" is C04_trusted_origins / C04_key_scope_blocks (restated below as C07_scoping) and the
    non-interference theorem of C03; "it neither sees nor extends the token's symbol and
-   public-key tables" belongs to property C12. *)
+   public-key tables" is proved over the table-threading model of property C12
+   (Model/Symbols.v) and restated below as C07_tables_isolated; the C07 check runs that
+   model's correspondence too (histories with third-party appends on both token types). *)
 From Biscuit Require Import Model.Token Model.Readings Model.Wire Model.ThirdParty.
 From Biscuit Require Import Proofs.ChainLayout Proofs.ChainProofs Proofs.ChainOps Proofs.ThirdPartyProofs.
 From Biscuit Require Model.Authorizer Proofs.AuthProofs.
+From Biscuit Require Model.Symbols Proofs.SymbolsProofs.
 Local Open Scope N_scope.
 
 (* The verified path accepts a response only if the stated key is the expected key and the
@@ -186,6 +189,35 @@ Proof.
 Qed.
 Print Assumptions C07_scoping.
 
+(* "It neither sees nor extends the token's symbol and public-key tables."  Over the
+   table-threading model (Model/Symbols.v: build, append, append_third_party on both token
+   types, seal, reload, hand-made blocks): after every history the token's string and key
+   tables are exactly the tables declared by its first-party blocks, in order -- a third-party
+   block contributes nothing, wherever it sits --, the token reloads to itself, and every block,
+   in particular every first-party block appended after a third-party block, reads back as
+   its author wrote it, in memory and after the round trip, on both token types. *)
+Theorem C07_tables_isolated : forall (c0 : Symbols.acontent) (ops : list Symbols.op),
+  let t := snd (Symbols.run Symbols.Repaired c0 ops) in
+  Symbols.tok_reload t = Symbols.TOk t /\
+  Symbols.t_strings t = Symbols.fp_strings (Symbols.t_blocks t) /\
+  Symbols.t_keys t = Symbols.fp_keys (Symbols.t_blocks t) /\
+  (forallb Symbols.is_api ops = true ->
+   let ta := snd (fst (Symbols.run_a Symbols.Repaired c0 ops)) in
+   let auth := snd (Symbols.run_a Symbols.Repaired c0 ops) in
+   length auth = length (Symbols.t_blocks ta) /\
+   forall sd i c, nth_error auth i = Some c ->
+     Symbols.block_view Symbols.Repaired sd ta i = Symbols.TOk (Symbols.authored c) /\
+     exists t', Symbols.tok_reload ta = Symbols.TOk t' /\
+                Symbols.block_view Symbols.Repaired sd t' i = Symbols.TOk (Symbols.authored c)).
+Proof.
+  intros c0 ops t. pose proof (SymbolsProofs.inv_run c0 ops) as H.
+  split; [apply SymbolsProofs.inv_reload; exact H|].
+  pose proof H as H2. apply SymbolsProofs.load_tables_ok in H2. apply pair_equal_spec in H2. destruct H2 as [Hs Hk].
+  split; [exact Hs|]. split; [exact Hk|].
+  intro A. exact (SymbolsProofs.references_resolve c0 ops A).
+Qed.
+Print Assumptions C07_tables_isolated.
+
 (* ------------------------------------------------------------------ non-vacuity *)
 (* Two tokens under one root; a third party K answers the request of the first one.  The scheme
    is ideal for K (it accepts exactly what K signed) and the toy correct scheme otherwise. *)
@@ -245,4 +277,19 @@ Example C07_example_scoping :
 Proof.
   cbv zeta. split; [vm_compute; tauto|]. split; vm_compute; intros H;
     repeat (destruct H as [H | H]; [discriminate H|]); exact H.
+Qed.
+
+(* non-vacuity of C07_tables_isolated: a history that appends a third-party block carrying its
+   own strings and a key scope, then a first-party block, seals and reloads -- three blocks, the
+   token tables hold the first-party entries only, every operation is an API call *)
+Example C07_example_tables :
+  let s := Symbols.run Symbols.Repaired SymbolsProofs.w_c0 SymbolsProofs.ex_ops in
+  length (Symbols.t_blocks (snd s)) = 3%nat /\
+  (exists b, nth_error (Symbols.t_blocks (snd s)) 1 = Some b /\ Symbols.b_ext b <> None /\ Symbols.b_strings b <> []) /\
+  Symbols.t_strings (snd s) = Symbols.fp_strings (Symbols.t_blocks (snd s)) /\
+  forallb Symbols.is_api SymbolsProofs.ex_ops = true.
+Proof.
+  cbv zeta. split; [vm_compute; reflexivity|]. split.
+  - eexists. split; [vm_compute; reflexivity|]. split; discriminate.
+  - split; vm_compute; reflexivity.
 Qed.
